@@ -805,12 +805,12 @@ Qed.
 Lemma oitem_kind (a : option N) i : oitem a = Some i -> snd i = 0.
 Proof. intros H. apply oitem_some in H. destruct H as (x & _ & ->). reflexivity. Qed.
 
-Lemma id_nil_repaired st r s isreq :
-  id_nil Repaired st r s isreq = [(mkState r (put_sess s (st_sess st)) (st_prov st), OId isreq IdNil (s_a4 s))].
+Lemma id_nil_repaired st r s isreq bind rq :
+  id_nil Repaired st r s isreq bind rq = [(mkState r (put_sess s (st_sess st)) (st_prov st), OId isreq IdNil (s_a4 s))].
 Proof. reflexivity. Qed.
 
-Lemma step_id_core_inv st s s0 isreq st' o :
-  inv st -> ctx_of st s s0 -> In (st', o) (step_id_core Repaired st s0 isreq) -> inv st'.
+Lemma step_id_core_inv st s s0 isreq bind rq st' o :
+  inv st -> ctx_of st s s0 -> In (st', o) (step_id_core Repaired st s0 isreq bind rq) -> inv st'.
 Proof.
   intros Hinv (Hin & Hid & Hp & Hl & Hs0). pose proof Hinv as (Hr & _).
   destruct (Hs0 Hl) as (_ & OT & O6 & OD).
@@ -954,7 +954,7 @@ Qed.
 Lemma step_inv st o st' ot : inv st -> In (st', ot) (step Repaired st o) -> inv st'.
 Proof.
   intros Hinv. unfold step, skip.
-  destruct o as [sid vrf s4 s6 spd o4 o6 od|sid a|sid|isreq sid vrf s4 o4|sid vrf s6 spd o6 od|sid|sid|sid];
+  destruct o as [sid vrf s4 s6 spd o4 o6 od|sid a|sid|isreq bind rq sid vrf s4 o4|sid vrf s6 spd o6 od|sid|sid|sid];
     destruct (find_sess sid st) as [s|] eqn:Ef;
     try (intros [E|[]]; inversion E; subst; exact Hinv);
     destruct (find_sess_in _ _ _ Ef) as [Hin Hid].
